@@ -945,3 +945,59 @@ const informerContextStatement = "the list/watch functions of a dynamic informer
 func init() {
 	addRule("C12", Rule{ID: "C12.R10", Min: 2, Statement: informerContextStatement, Run: informerContextRule})
 }
+
+// ---------------------------------------------------------------------------------------------
+// Teardown only while the cache finalizer is held (C12, C04): teardown re-establishes watches
+// (PhaseReconciler watches before it reads); once the finalizer is gone the cache was freed, and a
+// further teardown pass would register watches that nothing frees again.
+
+func teardownUnderFinalizerRule(c *Ctx) {
+	p := c.P
+	n := 0
+	for _, pk := range []string{pkgObjectSets, pkgObjSetPhases} {
+		for _, fn := range p.FuncsIn(pk) {
+			if fn.Parent() != nil {
+				continue
+			}
+			// functions that also free the cache
+			frees := false
+			for _, cc := range callsIn(fn) {
+				if isCallTo(cc.Common, pkgControllers+".FreeCacheAndRemoveFinalizer") {
+					frees = true
+				}
+			}
+			if !frees {
+				continue
+			}
+			for _, cc := range callsIn(fn) {
+				if !cc.Common.IsInvoke() || cc.Common.Method.Name() != "Teardown" {
+					continue
+				}
+				n++
+				o := c.Ob(fn, "teardown-under-finalizer", cc.Instr, c.rule.Statement)
+				_, ok := p.findFactCall(p.FactsAt(cc.Instr.Block()), true, []string{pkgCtrlUtil + ".ContainsFinalizer"}, func(k *ssa.CallCommon) bool {
+					if len(k.Args) != 2 {
+						return false
+					}
+					s, isC := constString(k.Args[1])
+					return isC && strings.Contains(s, "cached")
+				})
+				if ok {
+					o.OK()
+				} else {
+					o.Fail("Teardown can run although the cache finalizer is no longer present: it re-registers dynamic-cache watches for an owner whose cache was already freed, and nothing frees them again (informers keep running for a dead owner)")
+				}
+			}
+		}
+	}
+	if n < 2 {
+		c.AnchorLost(fmt.Sprintf("Teardown invocations in the deletion handlers (found %d)", n))
+	}
+}
+
+const teardownUnderFinalizerStatement = "in the deletion/archival handlers Teardown is invoked only while the object still carries the cache finalizer"
+
+func init() {
+	addRule("C12", Rule{ID: "C12.R11", Min: 2, Statement: teardownUnderFinalizerStatement, Run: teardownUnderFinalizerRule})
+	addRule("C04", Rule{ID: "C04.R9", Min: 2, Statement: teardownUnderFinalizerStatement, Run: teardownUnderFinalizerRule})
+}
